@@ -54,7 +54,7 @@ CHECKS = [
         "Coq proof over a Gallina model + differential correspondence (in-memory vs JSON-rebuilt vs model)", "DESIGN.md §4 C07, §9"),
     chk("C08", SEAT + "Reported against known finding F11. Proved for every state: positions land on playable seats, and the blinds rule in the state after Next (first playable seat after the dealer / after the small blind; dealer = small blind when two seats could play), which pins F11 down to its shape; Next switches off exactly the empty seats between the dealer and the big blind, and a newcomer on such a seat becomes playable at exactly the Next whose scan no longer covers the seat (one Next at a time; whole sequences by the scenario oracle)." + PART, BASE_NOTE,
         "Coq proof over a Gallina model + complete-graph correspondence for small tables", "DESIGN.md §4 C08, §9"),
-    chk("C09", REG + "Proved for every history of the regulator with instruction-following tables (any map iteration order): every living player is in exactly one place, the player total, table count and per-table counts are the real numbers; unknown tables and late registrations are refused without change." + PART,
+    chk("C09", REG + "Proved for every history of the regulator with instruction-following tables (any map iteration order, any choice of eliminated members and of handed-back players; this system machine is itself stepped by the runner and its tables, transit list and living players are compared with the harness's after every operation): every living player is in exactly one place, the player total, table count and per-table counts are the real numbers; unknown tables and late registrations are refused without change." + PART,
         BASE_NOTE, "Coq proof over a Gallina model + differential correspondence with the Go code", "DESIGN.md §4 C09, §9"),
     chk("C10", PURE + "Proved: Gosper enumeration is complete for up to 9 cards; in every reachable engine state after the deal the stored hand of every seat is one evaluation of an admissible selection that no admissible selection out-scores, and it is the strength the showdown compares." + PART, BASE_NOTE,
         "Coq proof over a Gallina model + differential correspondence with the Go code", "DESIGN.md §4 C10, §9"),
